@@ -214,6 +214,6 @@ def generic_cases():
 
 def subchecks(tier):
     q = tier == "quick"
-    return [Sub("evolution", case_strategy(), test_case, 32 if q else 400,
+    return [Sub("evolution", case_strategy(), test_case, 32 if q else 2000,
                 generic=generic_cases(), shards=8 if q else 16, max_rounds=2,
                 shrink_quick=False, pregenerate=True)]
